@@ -69,7 +69,7 @@ def gen(seed, tier, extra=None):
     def scalar():
         c = rng.random()
         if c < 0.4:
-            return rng.choice([0, 1, 2, 3, 5, 10, 2.5])
+            return rng.choice([0, 1, 2, 3, 5, 10, 2.5, 2.5, 1e16, 1e21, 9007199254740992, 123456789012345680000, 1e-7])
         if c < 0.7:
             return rng.choice(STR_POOL)
         return rng.choice([None, True, False])
@@ -194,10 +194,14 @@ def gen_op(rng, op_id, arrays, objects, strings, n_tmp):
                    ('datetime', ['var', 'vDt']), ('array', ['new', 'arrayNew']), ('object', ['new', 'objectNew']),
                    ('function', ['var', 'hostNop']), ('regex', ['var', 'vRe'])]
         # wrong-typed arguments are often the pool's own (aliased, nested, possibly self-containing) containers
-        if arrays:
-            choices += [('array', ['var', rng.choice(arrays)])] * 2
-        if objects:
-            choices += [('object', ['var', rng.choice(objects)])] * 2
+        # (never a temporary: a t-variable may have been re-assigned a NUMBER taken out of a container, and a huge
+        # number in a size position — arrayNewSize(1e16) — is a loop of CPython magnitude, not a wrong-typed argument)
+        named_a = [n for n in arrays if not n.startswith('t')]
+        named_o = [n for n in objects if not n.startswith('t')]
+        if named_a:
+            choices += [('array', ['var', rng.choice(named_a)])] * 2
+        if named_o:
+            choices += [('object', ['var', rng.choice(named_o)])] * 2
         if kind == 'cmp':
             base = 'function'
             choices = [c for c in choices if c[0] != 'null']      # the compare function is nullable
